@@ -377,6 +377,16 @@ func runC20(r *fw.Run) {
 	cases = append(cases, &c20Case{PidMode: "own", FDS: sp("2"), FDNames: sp("Varlink:varlink"), NamesVar: "extra", Kind: "socket", OtherK: "socket"},
 		&c20Case{PidMode: "own", FDS: sp("2"), FDNames: sp("varlink :x"), NamesVar: "extra", Kind: "socket", OtherK: "socket"},
 		&c20Case{PidMode: "own", FDS: sp("3"), FDNames: sp("a::varlink"), NamesVar: "extra", Kind: "socket", OtherK: "socket"})
+	for _, nm := range []string{"varlinkx:varlink", "var:varlink", "VARLINK:varlink", ":varlink", "varlink ", "n0:n1:varlink"} {
+		fds := "2"
+		if strings.Count(nm, ":") == 2 {
+			fds = "3"
+		}
+		for _, ok := range []string{"socket", "pipe"} {
+			cases = append(cases, &c20Case{PidMode: "own", FDS: sp(fds), FDNames: sp(nm), NamesVar: "extra", Kind: "socket", OtherK: ok})
+		}
+	}
+	cases = append(cases, &c20Case{PidMode: "own-padded", FDS: sp("1"), NamesVar: "extra", Kind: "socket", OtherK: "socket"})
 	fw.Parallel(16, len(cases), func(w, i int) {
 		c := cases[i]
 		if c.FDS != nil && (*c.FDS == "4" || *c.FDS == "2147483648" || *c.FDS == "+1" || *c.FDS == "01") {
